@@ -226,12 +226,29 @@ def check_nla_mirror(mk, X, c, rev, Lam):
     return None
 
 
+class _Fetched:
+    """What WindowFasta.fetch returns: the code under test calls .upper() on it. CrossHair cannot keep str.upper symbolic (and
+    per-character constraints on the window make the string theory queries time out), so for a symbolic window upper() is
+    modelled as the identity. That is exact for every window without lower-case characters - the claim of L5 is restricted to
+    those; windows with lower-case (soft-masked) motif letters are covered concretely by L5b, where the real str.upper runs."""
+
+    def __init__(self, s, identity_upper):
+        self.s = s
+        self.identity_upper = identity_upper
+
+    def upper(self):
+        if not self.identity_upper:
+            return self.s.upper()
+        return self.s
+
+
 class WindowFasta:
     """Reference stand-in for the no_overhang scan: every base is 'A' except the `width` bases starting at `base`,
     which are `window` (symbolic). fetch follows the pysam.FastaFile contract used by the code (negative start raises)."""
     PAD = 16
 
-    def __init__(self, base, window):
+    def __init__(self, base, window, identity_upper=False):
+        self.identity_upper = identity_upper
         self.base = base
         self.window = window
         self.padded = 'A' * self.PAD + window + 'A' * self.PAD
@@ -248,10 +265,15 @@ class WindowFasta:
         if lo < 0 or hi > len(self.padded):
             raise AssertionError('harness: fetch outside the modelled window')
         self.fetches.append((start, end))
-        return self.padded[lo:hi]
+        return _Fetched(self.padded[lo:hi], self.identity_upper)
 
 
-def check_nla_no_overhang(mk, mkref, S, rev, window):
+def _is_catg(w):
+    """reference letters may be soft-masked (lower case): CATG in any ASCII case"""
+    return len(w) == 4 and w[0] in 'Cc' and w[1] in 'Aa' and w[2] in 'Tt' and w[3] in 'Gg'
+
+
+def check_nla_no_overhang(mk, mkref, S, rev, window, case_free=False):
     """L5 (no_overhang=True: the CATG was digested away and is looked up in the reference next to the read).
     forward read: aligned start S, the 7 reference bases [S-7, S) are `window`; reverse read: aligned end S
     (exclusive), the 7 reference bases [S, S+7) are `window`. Ground truth: the site is the reference coordinate of the
@@ -261,13 +283,13 @@ def check_nla_no_overhang(mk, mkref, S, rev, window):
         r1 = mk(query_name='q', reference_name=CONTIG, reference_start=S, cigartuples=[(0, n)], seq=BODY[:n], qual='I' * n,
                 is_reverse=False, is_read1=True, is_read2=False, tags={'SM': 'lib_1', 'RX': 'ACG'})
         ref = mkref(S - 7, window)
-        occ = [j for j in (3, 2, 1, 0) if S - 7 + j >= 0 and window[j:j + 4] == 'CATG']   # bases before the contig start do not exist
+        occ = [j for j in (3, 2, 1, 0) if S - 7 + j >= 0 and (window[j:j + 4] == 'CATG' if case_free else _is_catg(window[j:j + 4]))]   # bases before the contig start do not exist
         exp = (S - 7 + occ[0]) if occ else None
     else:
         r1 = mk(query_name='q', reference_name=CONTIG, reference_start=S - n, cigartuples=[(0, n)], seq=BODY_R[:n], qual='I' * n,
                 is_reverse=True, is_read1=True, is_read2=False, tags={'SM': 'lib_1', 'RX': 'ACG'})
         ref = mkref(S, window)
-        occ = [j for j in (0, 1, 2, 3) if window[j:j + 4] == 'CATG']
+        occ = [j for j in (0, 1, 2, 3) if (window[j:j + 4] == 'CATG' if case_free else _is_catg(window[j:j + 4]))]
         exp = (S + occ[0]) if occ else None
     try:
         f = NlaIIIFragment([r1, None], no_overhang=True, reference=ref, umi_hamming_distance=0)
